@@ -153,7 +153,9 @@ impl Scenario for FaultScn {
         let t = Tbl::restore(self.cell.handler, &self.pre);
         // budget: the un-faulted run's calls plus room for ~3 commit retries
         let budget = if self.cell.gate_reads { self.n_all * 2 + 60 } else { self.n_mut + 16 };
-        let ctl = ActorCtl::new(gate, self.gate_rule()).with_budget(budget);
+        // ... and never more than 4 publish attempts (Lance's commit back-off sleeps are real and grow
+        // exponentially with the attempt number)
+        let ctl = ActorCtl::new(gate, self.gate_rule()).with_budget(budget).with_attempt_budget(self.cell.handler, 4);
         let a = t.actor(0, Some(&ctl));
         let op = self.cell.op.clone();
         let fut: ActorFut = Box::pin(async move {
@@ -539,7 +541,7 @@ fn run_cell(cell: Cell, wall_left: f64) -> CellReport {
         deviations: cell.deviations,
         max_schedules: 50_000,
         wall_s: wall_left.max(1.0),
-        hang_s: 10.0,
+        hang_s: 60.0,
         max_points: 400,
     };
     let rep = sched::explore(&scn, &b, 1);
